@@ -160,6 +160,7 @@ def tag_rules(F, rep, tag, gen, rule="R-TAG"):
 
 
 def run(ctx, rep):
+    balance.rule_release_retarget(ctx, rep)  # release-then-store through `&mut Handle` must store on unwinding exits too
     for tag, F, E in ctx.each():
         A = balance.analysis(tag, F, E)
         bits = F.pointer_bits
@@ -270,6 +271,17 @@ def _arms(F, A, rep, tag, gen):
             B = cfg.Body(b)
             excl = _variant_arms(F, B, b)
             ik = b["key"]
+            if excl is None:
+                # the body may live in a private helper taking `self` (`unsafe fn release(&mut self)` shared with other callers)
+                for _bi, t0 in B.calls():
+                    k0 = atomics.callee_of(t0)
+                    b0 = F.body(k0) if k0 else None
+                    if b0 is not None and not balance.is_api(F, b0) and b0["kind"] in ("Fn", "AssocFn"):
+                        B0 = cfg.Body(b0)
+                        e0 = _variant_arms(F, B0, b0)
+                        if e0 is not None:
+                            b, B, excl = b0, B0, e0
+                            break
             if excl is None:
                 rep.bad("R-ARMS", ik, "no `match` on the variant of the borrow found", F.loc(b), tag)
                 continue
